@@ -3,10 +3,10 @@ PROPERTY = dict(
     jobs=8,   # queries of 3-5 GB each: keep the total well under the machine's memory
     jobs_thorough=6,   # thorough queries need several GB each
     level='model_checking',
-    level_text='Bounded model checking of the real ExternalCommand::getSignature over an IDEAL hash: every hash_value/hash_combine instantiation it reaches is redirected to a stub that interns (previous state, data fed) and returns the intern id, so two signatures are equal exactly when the same information was fed in the same order.  For every pair of definitions (name, <= 2 inputs, <= 2 outputs, three flags; strings <= 2 bytes over {a,b}) equal definitions get equal signatures (determinism: nothing but the definition enters) and different definitions get different ones - except the recorded known finding (list boundary).  Validity of stored results after a definition change is C01-O1 (signature compared before validity); output tampering is C08-V2.',
-    level_note='Trusted: as C08, plus the ideal-hash abstraction: collisions of the real 64-bit hash and its process independence (fixed seed) are NOT decided. ShellCommand::getSignature (args, env, deps settings) is not covered.',
-    bounds='names and node names 0..2 bytes over {a,b}; 0..2 inputs; 0..2 outputs (list lengths concrete per query, quick: 5 shape pairs, thorough: all 45 unordered pairs); three flags',
-    outside='ShellCommand attributes; hash collisions; longer lists/strings',
+    level_text='Bounded model checking of the real ExternalCommand::getSignature over an IDEAL hash: every hash_value/hash_combine instantiation it reaches is redirected to a stub that interns (previous state, data fed) and returns the intern id, so two signatures are equal exactly when the same information was fed in the same order.  For every pair of definitions (name, <= 2 inputs, <= 2 outputs, three flags; strings <= 2 bytes over {a,b}) equal definitions get equal signatures (determinism: nothing but the definition enters) and different definitions get different ones - except the recorded known findings (list boundary; S3: the deps style enters as a bool).  Validity of stored results after a definition change is C01-O1 (signature compared before validity); output tampering is C08-V2.',
+    level_note='Trusted: as C08, plus the ideal-hash abstraction: collisions of the real 64-bit hash and its process independence (fixed seed) are NOT decided. ShellCommand::getSignature is covered by S3 for 0..2 arguments, the deps style and the two flags only: environment entries, dependency-file paths and the explicit signature string reach no verdict in 900 s (S3x, not part of the check).',
+    bounds='names and node names 0..2 bytes over {a,b}; 0..2 inputs; 0..2 outputs (list lengths concrete per query, quick: 5 shape pairs, thorough: all 45 unordered pairs); three flags; S3 (ShellCommand::getSignature): 0..2 arguments of 0..1 byte over {a,b}, 4 deps styles, inherit-env, can-safely-interrupt, two calls (cache)',
+    outside='ShellCommand env / deps paths / explicit signature; pairs of shell definitions of different list shapes; hash collisions; longer lists/strings',
     stubs='llvm::hash_value(StringRef), llvm::hash_combine<...> -> interning transcript',
     assumptions=['the hash function is injective on what it is fed (ideal hash)'],
 )
